@@ -372,7 +372,15 @@ func (w *world) faultAction(step int, a action) error {
 	bounds := fdb.Log()
 	_, imgErr := fdb.Imaged()
 	fdb.Reset()
+	var liveErr error
+	if aerr == nil {
+		// the operation reported success: what the live objects now claim must be what storage holds
+		liveErr = liveVsStorage(w.s, rep)
+	}
 	closeRep(rep, fdb)
+	if liveErr != nil && imgErr == nil {
+		return fmt.Errorf("step %d (%s): the operation succeeded without any fault, yet the live object disagrees with storage: %v", step, a.name, liveErr)
+	}
 	w.s.InFlight = w.s.InFlight[:mark]
 	if imgErr != nil {
 		return imgErr
